@@ -268,6 +268,34 @@ def observe_schema(text, case):
     return {"parse": "ok", "shapes": shapes, "prefixes": pj["prefixes"]}
 
 
+def project_profile(rows, case):
+    """profile snapshot of the `profiled` hook -> [[key, inverse, property, kind, cardinality (0 for '+'), count]] with shape references
+    written "@" + key, or None when the run is outside what the clause models (shape-map keys, custom shapes namespace, two classes
+    sharing a local name)"""
+    cfg = case["cfg"]
+    if cfg["mode"] not in ("all", "classes") or cfg["shapesNs"] != M.SHAPES_NS:
+        return None
+    by_label = {}
+    for key, label in expected_labels(case):
+        if label in by_label:
+            return None
+        by_label[label] = key
+    out = []
+    for key, inv, p, kind, card, count in rows:
+        if kind.startswith("%<") and kind.endswith(">"):
+            label = kind[2:-1]
+            if label not in by_label:
+                return None
+            kind = "@" + by_label[label]
+        out.append([key, bool(inv), p, kind, 0 if card == "+" else int(card), int(count)])
+    return out
+
+
+def project_statements(shapes):
+    """`shexed` hook -> per shape the statements in their final order as [inverse, number of instances]"""
+    return [[[bool(st["inv"]), int(st["n"])] for st in sh["statements"]] for sh in shapes]
+
+
 def project_tracked(inst_dict):
     """_target_classes_dict snapshot -> sorted [[node kind, node id], key] pairs"""
     out = []
@@ -324,6 +352,14 @@ def run_case(case, graph_kwargs=None, want_text=False):
         tr = rec.of("tracked")
         if tr:
             res["tracked"] = project_tracked(tr[0]["inst"])
+        pr = rec.of("profiled")
+        if pr:
+            rows = project_profile(pr[0]["profile"], case)
+            if rows is not None:
+                res["profile"] = rows
+        sx = rec.of("shexed")
+        if sx:
+            res["order"] = project_statements(sx[-1]["shapes"])
     return res
 
 
